@@ -33,6 +33,7 @@ type c16Op struct {
 	Chunk   int    `json:"chunk,omitempty"`   // per-mille of the remaining payload to write
 	Target  int    `json:"target,omitempty"`  // index into the pointer history (mod its length)
 	N       int    `json:"n,omitempty"`       // burst size
+	Seq     []string `json:"seq,omitempty"`   // redundant: further calls on a writer whose Close already succeeded
 }
 
 type c16Case struct {
@@ -83,8 +84,16 @@ func genC16() *rapid.Generator[c16Case] {
 				c.Ops = append(c.Ops, c16Op{Op: "tombstone", Target: rapid.IntRange(0, 30).Draw(t, "target")})
 			case k < 17:
 				c.Ops = append(c.Ops, c16Op{Op: "open", Target: rapid.IntRange(0, 30).Draw(t, "target")})
-			case k < 19:
+			case k < 18:
 				c.Ops = append(c.Ops, c16Op{Op: "scan"})
+			case k < 19:
+				// further calls on a writer whose Close succeeded: documented as
+				// harmless (second Close errors, Abort after a successful Close is a no-op)
+				op := c16Op{Op: "redundant", Target: rapid.IntRange(0, 30).Draw(t, "rtarget")}
+				for j := rapid.IntRange(1, 3).Draw(t, "nseq"); j > 0; j-- {
+					op.Seq = append(op.Seq, pick(t, "rseq", []string{"close", "abort", "abort", "write"}))
+				}
+				c.Ops = append(c.Ops, op)
 			default:
 				op := c16Op{Op: "burst", N: rapid.IntRange(2, 6).Draw(t, "burst")}
 				for j := rapid.IntRange(0, 4).Draw(t, "ndraws"); j > 0; j-- {
@@ -257,6 +266,7 @@ func runC16(c c16Case) *Violation {
 		return nil
 	}
 
+	var closedWriters []*c16Writer
 	for oi, op := range c.Ops {
 		desc := fmt.Sprintf("op %d %s", oi, jsonKey(op))
 		switch op.Op {
@@ -318,6 +328,7 @@ func runC16(c c16Case) *Violation {
 				continue
 			}
 			model[s.path] = &c16File{state: "closed", inc: s.inc, data: append([]byte(nil), s.written...), valid: validPayload[s.payload] && len(s.written) == len(payloads[s.payload])}
+			closedWriters = append(closedWriters, s)
 		case "abort":
 			s := slots[op.Slot]
 			if s == nil {
@@ -425,6 +436,24 @@ func runC16(c c16Case) *Violation {
 			if v := scan(desc); v != nil {
 				return v
 			}
+		case "redundant":
+			if len(closedWriters) == 0 {
+				continue
+			}
+			s := closedWriters[op.Target%len(closedWriters)]
+			for _, call := range op.Seq {
+				switch call {
+				case "close":
+					s.w.Close() // an error is the expected answer; no effect on any file
+				case "abort":
+					if ab, ok := s.w.(interface{ Abort() error }); ok {
+						ab.Abort()
+					}
+				case "write":
+					s.w.Write([]byte("late bytes"))
+				}
+			}
+			Ev.Class("redundant-calls-after-successful-close")
 		case "burst":
 			setDraws(op.Draws)
 			var wg sync.WaitGroup
@@ -496,7 +525,7 @@ func runC16(c c16Case) *Violation {
 }
 
 func TestC16(t *testing.T) {
-	Ev.Rule = "case = 3-25 operations over up to 4 simultaneously open writers of one FileSystemDataStore in a temp dir: CreateFile with the candidate names forced from a 3-name pool through the verif hook (then fresh names), chunked Write of a complete / partial valid bloom file, of garbage or of nothing, Close, Abort, TombstoneFile of any earlier pointer whose writer has ended (as the engine does, including after another writer re-used the name), OpenFile, directory scan, and bursts of 2-6 parallel CreateFile calls on the same forced names. Oracle: model map path -> open / closed(bytes) / gone; after EVERY operation: every non-empty .dat on disk is a closed file, every closed file has exactly the bytes written, no open writer's file is visible, CreateFile never returns a live pointer, parallel CreateFiles return distinct pointers, OpenFile returns the exact bytes, TombstoneFile leaves no .dat/.tmp of its pointer, GetMaybeFilesForQuery(nil) lists exactly the closed valid bloom files. Non-trivial: a forced name collided with a live (open or closed) file; distinct by case."
+	Ev.Rule = "case = 3-25 operations over up to 4 simultaneously open writers of one FileSystemDataStore in a temp dir: CreateFile with the candidate names forced from a 3-name pool through the verif hook (then fresh names), chunked Write of a complete / partial valid bloom file, of garbage or of nothing, Close, Abort, TombstoneFile of any earlier pointer whose writer has ended (as the engine does, including after another writer re-used the name), OpenFile, directory scan, redundant Close/Abort/Write calls on a writer whose Close already succeeded (documented as harmless), and bursts of 2-6 parallel CreateFile calls on the same forced names. Oracle: model map path -> open / closed(bytes) / gone; after EVERY operation: every non-empty .dat on disk is a closed file, every closed file has exactly the bytes written, no open writer's file is visible, CreateFile never returns a live pointer, parallel CreateFiles return distinct pointers, OpenFile returns the exact bytes, TombstoneFile leaves no .dat/.tmp of its pointer, GetMaybeFilesForQuery(nil) lists exactly the closed valid bloom files. Non-trivial: a forced name collided with a live (open or closed) file; distinct by case."
 	Ev.Assumptions = []string{"call sequences respect the DataStore contract the engine itself follows (one goroutine per writer, Close or Abort ends it, TombstoneFile only after the writer ended)", "a Close that fails is allowed; the file is then treated as never published"}
 	runChecks(t, "ops", 500, 20000, genC16(), runC16)
 }
